@@ -12,3 +12,28 @@ Theorem C09_sound_partial :
   forall orbit t p z, ends_tree t = true -> Lang orbit t p -> Lang orbit t (p ++ SEP :: z).
 Proof. exact ends_tree_exhaustive. Qed.
 Print Assumptions C09_sound_partial.
+
+From WaxModel Require Import Rule.
+From WaxProofs Require Import ZomFacts ExhaustFacts.
+
+(* the verdict itself, for every flat pattern (a concatenation of leaves: literals, separators, classes, `?`, `*`, `$`, `**`) that
+   respects the rules (no two adjacent boundaries, no two adjacent zero-or-more wildcards) and does not end in a separator (the
+   known class trailing_boundary): if the model of the pinned code answers Always, the pattern's last tree wildcard is followed by
+   `*` components only (C09_always_means_open_tail), and then everything beneath a matched path is matched *)
+Theorem C09_flat_always_sound : forall orbit sp ts p z, forallb is_leaf ts = true -> is_exhaustive (TCat sp ts) = Ok Always ->
+  adjacent_boundary ts = None -> adj_zom ts = false -> last_not_sep ts -> nosep z = true ->
+  Lang orbit (TCat sp ts) p -> Lang orbit (TCat sp ts) (p ++ SEP :: z).
+Proof. exact flat_always_sound. Qed.
+Print Assumptions C09_flat_always_sound.
+
+Theorem C09_always_means_open_tail : forall sp ts, forallb is_leaf ts = true -> is_exhaustive (TCat sp ts) = Ok Always ->
+  adjacent_boundary ts = None -> adj_zom ts = false -> last_not_sep ts -> open_tail ts.
+Proof. exact always_open_tail. Qed.
+Print Assumptions C09_always_means_open_tail.
+
+(* the premises are satisfiable: a/**/* *)
+Example C09_flat_nonvacuous :
+  let sp := (0%N, 0%N) in
+  let ts := [TLeaf sp (LLit false [97%N]); TLeaf sp (LTree true); TLeaf sp (LZom false)] in
+  forallb is_leaf ts = true /\ is_exhaustive (TCat sp ts) = Ok Always /\ adjacent_boundary ts = None /\ adj_zom ts = false /\ last_not_sep ts.
+Proof. cbv zeta. repeat split; vm_compute; reflexivity. Qed.
